@@ -73,6 +73,7 @@ MYTH_CTX_CALLBACK void myth_block_on_queue_cb(void *arg1,void *arg2,void *arg3) 
      after it enters the queue and access
      cur data structure before the context
      has been saved  */
+  MYTH_VERIF_PROBE(MYTH_VP_BLOCK, cur);
   myth_sleep_queue_enq_th(q, cur);
   if (m) {
     myth_mutex_unlock_body(m);
@@ -120,6 +121,7 @@ MYTH_CTX_CALLBACK void myth_block_on_stack_cb(void *arg1,void *arg2,void *arg3) 
      after it enters the queue and access
      cur data structure before the context
      has been saved  */
+  MYTH_VERIF_PROBE(MYTH_VP_BLOCK, cur);
   myth_sleep_stack_push_th(s, cur);
   if (m) {
     myth_mutex_unlock_body(m);
@@ -192,6 +194,7 @@ static inline int myth_wake_one_from_queue(myth_sleep_queue_t * q,
     to_wake = myth_sleep_queue_deq_th(q);
     if (to_wake) break;
     failed++;
+    MYTH_VERIF_SPIN(MYTH_VS_WAKE_ONE_SPIN);
     empty_loop(100);
   }
   /* wake up this guy */
@@ -262,6 +265,9 @@ static inline int myth_wake_many_from_queue(myth_sleep_queue_t * q,
     myth_thread_t to_wake = 0;
     while (!to_wake) {
       to_wake = myth_sleep_queue_deq_th(q);
+#if defined(MYTH_VERIF)
+      if (!to_wake) MYTH_VERIF_SPIN(MYTH_VS_WAKE_MANY_SPIN);
+#endif
     }
     to_wake->env = env;
     to_wake->next = 0;
@@ -376,6 +382,9 @@ static inline int myth_wake_many_from_stack(myth_sleep_stack_t * s,
     myth_thread_t to_wake = 0;
     while (!to_wake) {
       to_wake = myth_sleep_stack_pop_th(s);
+#if defined(MYTH_VERIF)
+      if (!to_wake) MYTH_VERIF_SPIN(MYTH_VS_WAKE_MANY_SPIN);
+#endif
     }
     to_wake->env = env;
     to_wake->next = 0;
@@ -414,6 +423,7 @@ static inline int myth_wake_many_from_stack(myth_sleep_stack_t * s,
 
 static inline int myth_once_try_set(myth_once_t * once_control,
 				    int old, int new) {
+  MYTH_VERIF_POINT(MYTH_VS_ONCE_CAS);
   return __sync_bool_compare_and_swap(&once_control->state, old, new);
 }
 
@@ -422,6 +432,7 @@ static inline int myth_once_wait_until(myth_once_t * once_control,
   int s = once_control->state;
   while (s != state) {
     myth_yield();
+    MYTH_VERIF_SPIN(MYTH_VS_ONCE_SPIN);
     s = once_control->state;
   }
   return 0;
@@ -429,11 +440,13 @@ static inline int myth_once_wait_until(myth_once_t * once_control,
 
 static inline int
 myth_once_body(myth_once_t * once_control, void (*init_routine)(void)) {
+  MYTH_VERIF_POINT(MYTH_VS_ONCE_RD);
   int s = once_control->state;
   if (s == myth_once_state_init) {
    if (myth_once_try_set(once_control, myth_once_state_init,
 			 myth_once_state_in_progress)) {
      init_routine();
+     MYTH_VERIF_POINT(MYTH_VS_ONCE_DONE_WR);
      once_control->state = myth_once_state_completed;
      return 0;
    }
@@ -471,11 +484,16 @@ static inline int myth_mutex_destroy_body(myth_mutex_t * mutex)
 static inline int myth_mutex_trylock_body(myth_mutex_t * mutex) {
   /* TODO: spin block */
   while (1) {
+    MYTH_VERIF_POINT(MYTH_VS_MUTEX_RD);
     long s = mutex->state;
     /* check the lock bit */
     if (s & 1) {
       /* lock bit set. do nothing and go home */
       return EBUSY;
+#if defined(MYTH_VERIF)
+    } else if (myth_verif_point(MYTH_VS_MUTEX_CAS), 0) {
+      /* never taken: only a schedule point between the load and the CAS */
+#endif
     } else if (__sync_bool_compare_and_swap(&mutex->state, s, s + 1)) {
       /* I set the lock bit */
       return 0;
@@ -521,8 +539,10 @@ static inline int myth_mutex_lock_body(myth_mutex_t * mutex) {
   /* TODO: spin block */
   int failed = 0;
   while (1) {
+    MYTH_VERIF_POINT(MYTH_VS_MUTEX_RD);
     long s = mutex->state;
     assert(s >= 0);
+    MYTH_VERIF_POINT(MYTH_VS_MUTEX_CAS);
     /* check lock bit */
     if ((s & 1) == 0) {
       /* lock bit clear -> try to become the one who set it */
@@ -582,6 +602,7 @@ myth_mutex_timedlock_body(myth_mutex_t * mutex,
 static void * myth_mutex_clear_lock_bit(void * mutex_) {
   myth_mutex_t * mutex = mutex_;
   assert(mutex->state & 1);
+  MYTH_VERIF_POINT(MYTH_VS_MUTEX_CAS);
   __sync_fetch_and_sub(&mutex->state, 1);
   return 0;
 }
@@ -590,7 +611,9 @@ static void * myth_mutex_clear_lock_bit(void * mutex_) {
 static inline int myth_mutex_unlock_body(myth_mutex_t * mutex) {
   int failed = 0;
   while (1) {
+    MYTH_VERIF_POINT(MYTH_VS_MUTEX_RD);
     long s = mutex->state;
+    MYTH_VERIF_POINT(MYTH_VS_MUTEX_CAS);
     /* the mutex must be locked now (by me). 
        TODO: a better diagnosis message */
     if (!(s & 1)) {
@@ -851,7 +874,9 @@ static inline int myth_barrier_destroy_body(myth_barrier_t * barrier) {
 
 static inline int myth_barrier_wait_body(myth_barrier_t * barrier) {
   while (1) {
+    MYTH_VERIF_POINT(MYTH_VS_BARRIER_RD);
     long c = barrier->state;
+    MYTH_VERIF_POINT(MYTH_VS_BARRIER_CAS);
     if (c >= barrier->n_threads) {
       /* TODO: set errno and return */
       fprintf(stderr, 
@@ -865,6 +890,7 @@ static inline int myth_barrier_wait_body(myth_barrier_t * barrier) {
     if (c == barrier->n_threads - 1) {
       /* I am the last one. wake up all guys.
 	 TODO: spin block */
+      MYTH_VERIF_POINT(MYTH_VS_BARRIER_RESET);
       barrier->state = 0;	/* reset state */
       //myth_wake_many_from_queue(barrier->sleep_q, 0, 0, c);
       myth_wake_many_from_stack(barrier->sleep_s, 0, 0, c);
@@ -928,7 +954,9 @@ myth_join_counter_init_body(myth_join_counter_t * jc,
 
 static inline int myth_join_counter_wait_body(myth_join_counter_t * jc) {
   while (1) {
+    MYTH_VERIF_POINT(MYTH_VS_JC_RD);
     long s = jc->state;
+    MYTH_VERIF_POINT(MYTH_VS_JC_CAS);
     if ((s & jc->state_mask) == jc->n_threads) {
       return 0;
     }
@@ -946,7 +974,9 @@ static inline int myth_join_counter_wait_body(myth_join_counter_t * jc) {
 
 static inline int myth_join_counter_dec_body(myth_join_counter_t * jc) {
   while (1) {
+    MYTH_VERIF_POINT(MYTH_VS_JC_RD);
     long s = jc->state;
+    MYTH_VERIF_POINT(MYTH_VS_JC_CAS);
     long n_decs = s & jc->state_mask;
     if (n_decs >= jc->n_threads) {
       /* TODO: set errno and return */
@@ -1022,6 +1052,7 @@ static inline int myth_felock_wait_and_lock_body(myth_felock_t * fe,
 
 static inline int myth_felock_mark_and_signal_body(myth_felock_t * fe,
 						   int status_to_signal) {
+  MYTH_VERIF_POINT(MYTH_VS_FELOCK_STATUS);
   fe->status = status_to_signal;
   myth_cond_signal(&fe->cond[status_to_signal]);
   return myth_mutex_unlock_body(fe->mutex);
@@ -1058,6 +1089,8 @@ MYTH_CTX_CALLBACK
 void myth_uncond_wait_cb(void *arg1,void *arg2,void *arg3) {
   myth_uncond_t * u = arg1;
   myth_thread_t cur = arg2;
+  MYTH_VERIF_PROBE(MYTH_VP_BLOCK, cur);
+  MYTH_VERIF_POINT(MYTH_VS_UNCOND_WR);
   u->th = cur;
 }
 
@@ -1087,11 +1120,14 @@ static inline int myth_uncond_wait_body(myth_uncond_t * u) {
 
 static inline int myth_uncond_signal_body(myth_uncond_t * u) {
   myth_running_env_t env = myth_get_current_env();
+  MYTH_VERIF_POINT(MYTH_VS_UNCOND_RD);
   myth_thread_t to_wake = u->th;
   while (!to_wake) {
+    MYTH_VERIF_SPIN(MYTH_VS_UNCOND_SPIN);
     to_wake = u->th;
   }
   to_wake->env = env;
+  MYTH_VERIF_POINT(MYTH_VS_UNCOND_WR);
   u->th = 0;
   myth_queue_push(&env->runnable_q, to_wake);
   return 0;
